@@ -12,6 +12,7 @@ import (
 	"strings"
 	"sync"
 
+	"mellium.im/xmlstream"
 	"mellium.im/xmpp"
 	"mellium.im/xmpp/jid"
 	"mellium.im/xmpp/stream"
@@ -51,6 +52,15 @@ type Opts struct {
 	// tolerates: the session's addresses must stay what they were.
 	Default     bool
 	PeerOmitsTo bool
+	// TeeOut (with Default or ReceiveDefault) is handed to the default
+	// negotiator as StreamConfig.TeeOut: every byte the session writes is copied
+	// to it (the "XML console").
+	TeeOut io.Writer
+	// ReceiveDefault builds the session with xmpp.ReceiveSession and the
+	// library's default negotiator without features: the peer opens the stream,
+	// the library learns both addresses from the peer's header, answers with its
+	// own header and an empty features list and is ready.
+	ReceiveDefault bool
 }
 
 // NS returns the content namespace for o.
@@ -84,6 +94,19 @@ func (o *Opts) defaults() {
 // Header returns the stream header a peer sends to a session built with o.
 func Header(o Opts) string {
 	o.defaults()
+	if o.ReceiveDefault {
+		// the initiating peer's header, followed at once by its selection of the
+		// one (mandatory) feature the harness configures
+		// (on a server-to-server stream the header names no sender: the default
+		// negotiator refuses a from that differs from the origin it was created
+		// with, and a received session is created with none)
+		from := " from='" + xmlEsc(o.Remote) + "'"
+		if o.S2S {
+			from = ""
+		}
+		return fmt.Sprintf(`<?xml version="1.0"?><stream:stream xmlns='%s' xmlns:stream='%s' version='1.0'%s to='%s'><ready xmlns='%s'/>`,
+			o.NS(), NSStream, from, xmlEsc(o.Local), NSReady)
+	}
 	if o.Default {
 		to := " to='" + xmlEsc(o.Local) + "'"
 		if o.PeerOmitsTo {
@@ -159,8 +182,19 @@ func Ready(rw io.ReadWriter, o Opts) (*xmpp.Session, error) {
 	// around the connect step): so does every session of the harness.
 	ctx, cancel := context.WithCancel(context.Background())
 	defer cancel()
-	if o.Default {
-		neg := xmpp.NewNegotiator(func(*xmpp.Session, *xmpp.StreamConfig) xmpp.StreamConfig { return xmpp.StreamConfig{} })
+	if o.Default || o.ReceiveDefault {
+		tee := o.TeeOut
+		var features []xmpp.StreamFeature
+		if o.ReceiveDefault {
+			// a receiving entity is never ready before a feature said so
+			features = []xmpp.StreamFeature{readyFeature()}
+		}
+		neg := xmpp.NewNegotiator(func(*xmpp.Session, *xmpp.StreamConfig) xmpp.StreamConfig {
+			return xmpp.StreamConfig{TeeOut: tee, Features: features}
+		})
+		if o.ReceiveDefault {
+			return xmpp.ReceiveSession(ctx, rw, st, neg)
+		}
 		return xmpp.NewSession(ctx, remote, local, rw, st, neg)
 	}
 	if o.Received {
@@ -169,6 +203,35 @@ func Ready(rw io.ReadWriter, o Opts) (*xmpp.Session, error) {
 		return xmpp.NewSession(ctx, local, remote, rw, st|xmpp.Received, NopNegotiator(o))
 	}
 	return xmpp.NewSession(ctx, remote, local, rw, st, NopNegotiator(o))
+}
+
+// NSReady is the namespace of the feature that completes a ReceiveDefault
+// session.
+const NSReady = "urn:verif:sess:ready"
+
+// readyFeature is a mandatory feature whose selection makes the session ready.
+func readyFeature() xmpp.StreamFeature {
+	return xmpp.StreamFeature{
+		Name: xml.Name{Space: NSReady, Local: "ready"},
+		List: func(ctx context.Context, e xmlstream.TokenWriter, start xml.StartElement) (bool, error) {
+			if err := e.EncodeToken(start); err != nil {
+				return true, err
+			}
+			return true, e.EncodeToken(start.End())
+		},
+		Parse: func(ctx context.Context, d *xml.Decoder, start *xml.StartElement) (bool, interface{}, error) {
+			return true, nil, d.Skip()
+		},
+		Negotiate: func(ctx context.Context, s *xmpp.Session, data interface{}) (xmpp.SessionState, io.ReadWriter, error) {
+			r := s.TokenReader()
+			defer r.Close()
+			d := xml.NewTokenDecoder(r)
+			if _, err := d.Token(); err != nil {
+				return 0, nil, err
+			}
+			return xmpp.Ready, nil, d.Skip()
+		},
+	}
 }
 
 // Pair is a Ready library session joined to a raw harness end.
